@@ -2,20 +2,21 @@
 code -- kernel::OP<..>(.., requires_arch<X>), operators / members, public API xsimd::OP -- see gen.classify.
 Postconditions are taken from the property statements; specs live in spec/spec.h."""
 from .common import TYPES, INT_TYPES, FLOAT_TYPES, ALL_TYPES, ARCHS, lanes
-from .gen import Unsupported, bind_ret, conj, UW
+from .gen import Unsupported, bind_ret, conj, UW, Arg
 
 ROWS = {}
 
 
 class Row:
-    def __init__(self, op, kinds, ret, build, types, mode, prop):
+    def __init__(self, op, kinds, ret, build, types, mode, prop, inline_ops=()):
         self.op, self.kinds, self.ret, self.build, self.types, self.mode, self.prop = op, kinds, ret, build, types, mode, prop
+        self.inline_ops = set(inline_ops)   # callees of these operations are inlined instead of replaced by their contract
 
 
-def row(op, kinds, ret, types=ALL_TYPES, mode="concrete", prop=None):
+def row(op, kinds, ret, types=ALL_TYPES, mode="concrete", prop=None, inline_ops=()):
     def deco(f):
         for k in ([kinds] if isinstance(kinds, str) else kinds):
-            ROWS[(op, k)] = Row(op, k, ret, f, set(types), mode, prop)
+            ROWS[(op, k)] = Row(op, k, ret, f, set(types), mode, prop, inline_ops)
         return f
     return deco
 
@@ -123,14 +124,15 @@ row("decr_if", "BM", "B", types=INT_TYPES, prop="C01")(_masked("decr"))
 for _op, _sp in (("bitwise_and", "and"), ("bitwise_or", "or"), ("bitwise_xor", "xor"), ("bitwise_andnot", "andnot")):
     row(_op, "BB", "B", prop=_bit_prop)(lanewise(_sp))
 row("bitwise_not", "B", "B", prop=_bit_prop)(lanewise("not"))
+_SHIFTS = ("bitwise_lshift", "bitwise_rshift")
 row("bitwise_lshift", "BS", "B", types=INT_TYPES, prop="C07")(lanewise("shl", scalar_pre=_shift_pre))
 row("bitwise_rshift", "BS", "B", types=INT_TYPES, prop="C07")(lanewise("shr", scalar_pre=_shift_pre))
 row("bitwise_lshift", "BB", "B", types=INT_TYPES, prop="C07")(lanewise("shl", scalar_pre=_lane_count_pre))
 row("bitwise_rshift", "BB", "B", types=INT_TYPES, prop="C07")(lanewise("shr", scalar_pre=_lane_count_pre))
-row("rotl", "BS", "B", types=INT_TYPES, prop="C07")(lanewise("rotl", scalar_pre=_shift_pre))
-row("rotr", "BS", "B", types=INT_TYPES, prop="C07")(lanewise("rotr", scalar_pre=_shift_pre))
-row("rotl", "BB", "B", types=INT_TYPES, prop="C07")(lanewise("rotl", scalar_pre=_lane_count_pre))
-row("rotr", "BB", "B", types=INT_TYPES, prop="C07")(lanewise("rotr", scalar_pre=_lane_count_pre))
+row("rotl", "BS", "B", types=INT_TYPES, prop="C07", inline_ops=_SHIFTS)(lanewise("rotl", scalar_pre=_shift_pre))
+row("rotr", "BS", "B", types=INT_TYPES, prop="C07", inline_ops=_SHIFTS)(lanewise("rotr", scalar_pre=_shift_pre))
+row("rotl", "BB", "B", types=INT_TYPES, prop="C07", inline_ops=_SHIFTS)(lanewise("rotl", scalar_pre=_lane_count_pre))
+row("rotr", "BB", "B", types=INT_TYPES, prop="C07", inline_ops=_SHIFTS)(lanewise("rotr", scalar_pre=_lane_count_pre))
 
 
 # ---- C03 comparisons, masks, select ----------------------------------------------------------------------------
@@ -185,3 +187,62 @@ def _broadcast(ctx):
     R = ctx.ret = bind_ret(ctx, "B")
     v = ctx.args[0]
     ctx.ensures += conj(["(%s == %s)" % (R.lane(i), v.lane(i)) for i in range(ctx.n)])
+
+
+# ---- C17: scalar overloads share the per-lane specs --------------------------------------------------------------
+def scalarwise(spec, pre=None, scalar_pre=None, ret="S"):
+    def build(ctx):
+        a = [x.lane(0) for x in ctx.args]
+        R = ctx.ret = Arg("S", ctx.tid, None, scalar="__CPROVER_return_value")
+        if ret == "b":
+            ctx.ensures.append("((__CPROVER_return_value != 0) == %s)" % ctx.spec(spec, *a))
+        else:
+            ctx.ensures.append(ctx.eq(R.lane(0), ctx.spec(spec, *a)))
+        if pre:
+            ctx.requires.append(ctx.spec(pre, *a))
+        if scalar_pre:
+            ctx.requires += scalar_pre(ctx)
+    return build
+
+
+def _scalar_count_pre(ctx):
+    n = ctx.args[1]
+    return ["(s64)(%s)%s >= 0 && (s64)(%s)%s < %d" % ("s%d" % n.w, n.scalar, "s%d" % n.w, n.scalar, ctx.w)] if TYPES[n.tid][3] == "s" else ["%s < %d" % (n.scalar, ctx.w)]
+
+
+for _op, _sp, _n in (("add", "add", 2), ("sub", "sub", 2), ("neg", "neg", 1), ("abs", "abs", 1), ("incr", "incr", 1), ("decr", "decr", 1),
+                     ("min", "min", 2), ("max", "max", 2), ("sadd", "sadd", 2), ("ssub", "ssub", 2), ("avg", "avg", 2),
+                     ("bitwise_and", "and", 2), ("bitwise_or", "or", 2), ("bitwise_xor", "xor", 2), ("bitwise_andnot", "andnot", 2),
+                     ("bitwise_not", "not", 1), ("sign", "sign", 1)):
+    row(_op, "S" * _n, "S", types=INT_TYPES, prop="C17")(scalarwise(_sp))
+row("avgr", "SS", "S", types=INT_TYPES, prop="C17")(scalarwise("avgr", pre="avgrpre"))
+row("mul", "SS", "S", types=INT_TYPES, mode="mul", prop="C17")(scalarwise("mul"))
+row("div", "SS", "S", types=INT_TYPES, mode="uf", prop="C17")(scalarwise("div", pre="divpre"))
+row("mod", "SS", "S", types=INT_TYPES, mode="uf", prop="C17")(scalarwise("mod", pre="divpre"))
+for _op in ("fma", "fms", "fnma", "fnms"):
+    row(_op, "SSS", "S", types=INT_TYPES, mode="mul", prop="C17")(scalarwise(_op))
+for _op, _sp in (("bitwise_lshift", "shl"), ("bitwise_rshift", "shr"), ("rotl", "rotl"), ("rotr", "rotr")):
+    row(_op, "SS", "S", types=INT_TYPES, prop="C17")(scalarwise(_sp, scalar_pre=_scalar_count_pre))
+for _op in ("eq", "neq", "lt", "le", "gt", "ge"):
+    row(_op, "SS", "b", types=ALL_TYPES, prop="C17")(scalarwise(_op, ret="b"))
+
+
+@row("incr_if", "Sb", "S", types=INT_TYPES, prop="C17")
+def _s_incr_if(ctx):
+    x, m = ctx.args
+    R = ctx.ret = Arg("S", ctx.tid, None, scalar="__CPROVER_return_value")
+    ctx.ensures.append("(%s == ((%s != 0) ? %s : %s))" % (R.lane(0), m.scalar, ctx.spec("incr", x.lane(0)), x.lane(0)))
+
+
+@row("decr_if", "Sb", "S", types=INT_TYPES, prop="C17")
+def _s_decr_if(ctx):
+    x, m = ctx.args
+    R = ctx.ret = Arg("S", ctx.tid, None, scalar="__CPROVER_return_value")
+    ctx.ensures.append("(%s == ((%s != 0) ? %s : %s))" % (R.lane(0), m.scalar, ctx.spec("decr", x.lane(0)), x.lane(0)))
+
+
+@row("select", "bSS", "S", types=ALL_TYPES, prop="C17")
+def _s_select(ctx):
+    c, a, b = ctx.args
+    R = ctx.ret = Arg("S", ctx.tid, None, scalar="__CPROVER_return_value")
+    ctx.ensures.append("(%s == ((%s != 0) ? %s : %s))" % (R.lane(0), c.scalar, a.lane(0), b.lane(0)))
